@@ -11,10 +11,11 @@ Subset
   statements : assignment to a name / tuple of names / subscript, augmented assignment, `for v in range(..)`,
                `if/elif/else`, `return`, `raise` (-> None of an option), `break` (only as last statement of an `if`
                directly inside a `for` body; the loop state gets a `live` flag), `continue` (same position),
-               `while` (needs a fuel expression from `sigs[fn]['fuel']`), `pass`, docstrings, `assert` is rejected
+               `while` (see below), `pass`, docstrings, `assert` is rejected
   expressions: float/int/bool constants, names, + - * / // % ** unary -, not/and/or, comparisons (chains split),
-               a[i], a[i, j], a.shape[0], a.shape, len(a), calls from CALLS below, calls of other translated
-               functions of the same module, conditional expressions;
+               a[i], a[i, j], a[:n] (see below), t[k] for a tuple value t and a literal k, a.shape[0], a.shape, len(a),
+               calls from CALLS below, calls of other translated functions of the same module, calls of "opaque"
+               helpers (see below), conditional expressions;
                np.zeros / np.empty (shape[, dtype]): the dtype is the `dtype=` keyword or numpy's second positional
                argument (float dtypes -> all-zero float array, float32 storage is not rounded; int dtypes -> int
                array; any other argument is rejected); np.empty is modelled as np.zeros (reading an entry that was
@@ -25,6 +26,25 @@ Subset
   types      : F float scalar, I int, B bool, V float vector, M float matrix, VZ int vector, tuples (for returns).
                Argument types come from `sigs`; everything else is inferred; int -> float coercions are explicit
                (`of_Z`), bool -> number is `b2n`.
+
+  while      : `while c: body` -> `while_fuel (Z.to_nat FUEL) c body state` (PyPrim.v) where FUEL is the int expression
+               `sigs[fn]['fuel']` over the function's arguments (e.g. "ind1.shape[0] + ind2.shape[0]"), evaluated where
+               the loop starts.  No else/return/raise/break/continue inside.  A function that contains a `while`, or calls
+               a translated function that does ("fuel-bounded"), returns the PAIR (value, ok): ok is the conjunction of
+               the `ok` flags of all its loops and fuel-bounded calls on the executed path (true = every loop ended
+               because its condition became false).  Budget exhaustion therefore never looks like a normal result: link
+               theorems state `src_f ... = (model value, true)`.  A `while` / fuel-bounded call is accepted only where
+               its flag stays in scope until the `return`: not inside a loop body, a joining `if`, a conditional
+               expression or an and/or operand.  A call `f(..)` of a fuel-bounded function inside an expression is
+               hoisted: `let '(r_, okc_) := src_f .. in` precedes the statement (pure total functions: order irrelevant).
+               Fuel-bounded functions may not `raise`.
+  slices     : only `a[:n]` on a 1-d array -> `zslice_to a n`.  A slice is a value (copy), numpy's is a view: a store into
+               a name that is (flow-sensitively) bound to a slice is rejected; slices inside loops / joining ifs are rejected.
+  opaque     : `sigs[fn]['opaque'] = {helper: ([arg types], result type)}`: a call of `helper` is NOT translated; the
+               generated definition gets one extra function parameter per helper it (or a callee) uses, after `N` [`E`],
+               in the order of that dict: `src_sparse_sum N (arr_union : list Z -> list Z -> list Z) ind1 ...`.  Meaning:
+               helper is a pure function returning a FRESH array (no aliasing with its arguments: python's
+               `arr_union` returning `ar2` itself is not modelled; only the returned value is).
 """
 import ast, decimal, hashlib
 
@@ -166,6 +186,16 @@ class FnTranslator:
         self.has_raise = contains(fn.body, ast.Raise)
         self.fresh = 0
         self.calls = set()
+        self.opaque = dict(sig.get("opaque") or {})     # helper name -> ([arg types], result type)
+        self.opaque_used = set()
+        self.pre = []          # hoisted fuel-bounded calls of the statement being translated: [(let-text, ok flag)]
+        self.nest = 0          # > 0 inside a loop body / a branch of a joining if
+        self.cond_depth = 0    # > 0 inside a conditional expression / and-or operand
+        self.has_fuel = any(isinstance(x, ast.While) for x in ast.walk(fn)) or any(
+            isinstance(x, ast.Call) and dotted(x.func) in module_fns and dotted(x.func) not in self.opaque
+            and module_fns[dotted(x.func)].get("fuel") for x in ast.walk(fn))
+        if self.has_fuel and self.has_raise:
+            raise Unsupported("raise in a fuel-bounded function")
 
     # ---------------------------------------------------------------- expressions
     def coerce(self, e, t, want):
@@ -182,6 +212,34 @@ class FnTranslator:
         if t == B and want == I:
             return "(Z.b2z %s)" % e
         raise Unsupported("cannot coerce %s to %s in %s" % (t, want, e))
+
+    def take_pre(self, env):
+        """hoisted fuel-bounded calls of the expression(s) just translated -> (let-text, env with their ok flags)"""
+        pre, self.pre = self.pre, []
+        if not pre:
+            return "", env
+        env2 = dict(env)
+        env2["%ok"] = env.get("%ok", ()) + tuple(o for _, o in pre)
+        return "".join(t for t, _ in pre), env2
+
+    def no_pre(self):
+        if self.pre:
+            self.pre = []
+            raise Unsupported("call of a fuel-bounded function in a position where it cannot be hoisted")
+
+    def add_ok(self, env, ok):
+        env2 = dict(env)
+        env2["%ok"] = env.get("%ok", ()) + (ok,)
+        return env2
+
+    def ok_conj(self, env):
+        flags = (env or {}).get("%ok", ())
+        if not flags:
+            return "true"
+        acc = flags[-1]
+        for f in reversed(flags[:-1]):
+            acc = "(andb %s %s)" % (f, acc)
+        return acc
 
     def expr(self, n, env):
         if isinstance(n, ast.Constant):
@@ -226,7 +284,11 @@ class FnTranslator:
         if isinstance(n, ast.BinOp):
             return self.binop(n, env)
         if isinstance(n, ast.BoolOp):
-            parts = [self.expr(v, env) for v in n.values]
+            self.cond_depth += 1
+            try:
+                parts = [self.expr(v, env) for v in n.values]
+            finally:
+                self.cond_depth -= 1
             if any(t != B for _, t in parts):
                 raise Unsupported("and/or on non-bool")
             op = "andb" if isinstance(n.op, ast.And) else "orb"
@@ -247,9 +309,13 @@ class FnTranslator:
                 return acc, B
             return self.compare(n.left, n.ops[0], n.comparators[0], env), B
         if isinstance(n, ast.IfExp):
-            c, ct = self.expr(n.test, env)
-            a, ta = self.expr(n.body, env)
-            b, tb = self.expr(n.orelse, env)
+            self.cond_depth += 1
+            try:
+                c, ct = self.expr(n.test, env)
+                a, ta = self.expr(n.body, env)
+                b, tb = self.expr(n.orelse, env)
+            finally:
+                self.cond_depth -= 1
             if ct != B:
                 raise Unsupported("non-bool condition")
             t = self.join(ta, tb)
@@ -354,8 +420,22 @@ class FnTranslator:
             raise Unsupported("shape index")
         arr, t = self.expr(n.value, env)
         sl = n.slice
+        if isinstance(t, tuple) and not (t and t[0] == "opt"):
+            # t[k] of a tuple value, literal k: nested pairs ((a, b), c)
+            if not (isinstance(sl, ast.Constant) and isinstance(sl.value, int) and not isinstance(sl.value, bool) and 0 <= sl.value < len(t)) or len(t) < 2:
+                raise Unsupported("tuple subscript")
+            k, m = sl.value, len(t)
+            e = arr
+            for _ in range(m - 1 - max(k, 1)):
+                e = "(fst %s)" % e
+            e = "(fst %s)" % e if k == 0 else "(snd %s)" % e
+            return e, t[k]
         if isinstance(sl, ast.Slice):
-            raise Unsupported("slice")
+            if sl.lower is not None or sl.step is not None or sl.upper is None or t not in (V, VZ):
+                raise Unsupported("slice other than a[:n] of a 1-d array")
+            if self.nest:
+                raise Unsupported("slice inside a loop / joining if")
+            return "(zslice_to %s %s)" % (arr, self.index(sl.upper, env)), t
         if isinstance(sl, ast.Tuple):
             if t != M or len(sl.elts) != 2:
                 raise Unsupported("tuple index")
@@ -511,6 +591,18 @@ class FnTranslator:
             if " E " in tpl:
                 self.uses_ext = True
             return tpl.format(*args), rt
+        if name in self.opaque:
+            tys, rt = self.opaque[name]
+            if kw or len(n.args) != len(tys):
+                raise Unsupported("arity of opaque helper " + name)
+            if name in env:
+                raise Unsupported("opaque helper name %s is also a variable" % name)
+            args = []
+            for a, want in zip(n.args, tys):
+                e, t = self.expr(a, env)
+                args.append(self.coerce(e, t, want))
+            self.opaque_used.add(name)
+            return "(%s %s)" % (self.var(name), " ".join(args)), rt
         if name in self.module_fns:
             info = self.module_fns[name]
             if kw:
@@ -527,6 +619,21 @@ class FnTranslator:
             if info["ext"]:
                 self.uses_ext = True
             head = "src_%s N%s" % (name, " E" if info["ext"] else "")
+            for h, hsig in info.get("opaque", []):
+                if self.opaque.get(h) != hsig:
+                    raise Unsupported("call of %s needs the opaque helper %s, not declared (with the same type) for this function" % (name, h))
+                if h in env:
+                    raise Unsupported("opaque helper name %s is also a variable" % h)
+                self.opaque_used.add(h)
+                head += " " + self.var(h)
+            if info.get("fuel"):
+                # (value, ok): bind both in front of the current statement
+                if self.cond_depth or self.nest:
+                    raise Unsupported("call of the fuel-bounded function %s inside a loop / joining if / conditional expression" % name)
+                r, okv = "r%d_" % self.fresh, "okc%d_" % self.fresh
+                self.fresh += 1
+                self.pre.append(("let '(%s, %s) := %s %s in\n" % (r, okv, head, " ".join(args)), okv))
+                return r, info["ret"]
             return "(%s %s)" % (head, " ".join(args)), info["ret"]
         raise Unsupported("call of " + name)
 
@@ -555,12 +662,16 @@ class FnTranslator:
             e = "(" + ", ".join([e] + [self.var(m) for m in self.mutated]) + ")"
             t = (t,) + tuple(env[m] for m in self.mutated)
         self.note_ret(t)
+        if self.has_fuel:
+            return "(%s, %s)" % (e, self.ok_conj(env))
         return "(Some %s)" % e if self.has_raise else e
 
     def ret_mutated(self, env):
         """`return` without a value (or falling off the end) in a function whose effect is the mutation of argument arrays"""
         if not self.mutated:
             raise Unsupported("function returns nothing and mutates nothing")
+        if self.has_fuel:
+            raise Unsupported("value-less return from a fuel-bounded function")
         e = self.tup(self.mutated)
         t = tuple(env[m] for m in self.mutated) if len(self.mutated) > 1 else env[self.mutated[0]]
         self.note_ret(t)
@@ -589,15 +700,19 @@ class FnTranslator:
                 return self.ret_mutated(env)
             if isinstance(s.value, ast.Tuple):
                 parts = [self.expr(e, env) for e in s.value.elts]
+                pre, env = self.take_pre(env)
                 if self.mutated:
                     # `return a, b` from a function that stores into its argument arrays x, ..: the flat tuple (a, b, x, ..)
+                    if self.has_fuel:
+                        raise Unsupported("tuple return from a fuel-bounded function that mutates an argument")
                     t = tuple(p[1] for p in parts) + tuple(env[m] for m in self.mutated)
                     self.note_ret(t)
                     e = "(" + ", ".join([p[0] for p in parts] + [self.var(m) for m in self.mutated]) + ")"
-                    return "(Some %s)" % e if self.has_raise else e
-                return self.ret("(" + ", ".join(p[0] for p in parts) + ")", tuple(p[1] for p in parts), env)
+                    return pre + ("(Some %s)" % e if self.has_raise else e)
+                return pre + self.ret("(" + ", ".join(p[0] for p in parts) + ")", tuple(p[1] for p in parts), env)
             e, t = self.expr(s.value, env)
-            return self.ret(e, t, env)
+            pre, env = self.take_pre(env)
+            return pre + self.ret(e, t, env)
         if isinstance(s, ast.Raise):
             return "None"
         if isinstance(s, ast.Assign):
@@ -638,12 +753,23 @@ class FnTranslator:
     def assign(self, target, value, rest, env, k):
         if isinstance(target, ast.Name):
             e, t = self.expr(value, env)
+            pre, env = self.take_pre(env)
             if isinstance(t, tuple):
                 raise Unsupported("tuple value bound to a name")
+            if target.id in self.opaque:
+                raise Unsupported("assignment to the name of an opaque helper")
             txt, env2 = self.bind(target.id, e, t, env)
-            return txt + self.block(rest, env2, k)
+            views = set(env.get("%views", ()))
+            views.discard(target.id)
+            if isinstance(value, ast.Subscript) and isinstance(value.slice, ast.Slice):
+                views.add(target.id)            # no store into the view ...
+                if isinstance(value.value, ast.Name):
+                    views.add(value.value.id)   # ... nor into the array it shares its memory with
+            env2["%views"] = frozenset(views)
+            return pre + txt + self.block(rest, env2, k)
         if isinstance(target, ast.Tuple):
             e, t = self.expr(value, env)
+            pre0, env = self.take_pre(env)
             if not isinstance(t, tuple) or len(t) != len(target.elts) or not all(isinstance(x, ast.Name) for x in target.elts):
                 raise Unsupported("tuple assignment")
             env2 = dict(env)
@@ -651,12 +777,17 @@ class FnTranslator:
                 if x.id in env and env[x.id] != tx:
                     raise Unsupported("tuple assignment changes a type")
                 env2[x.id] = tx
-            return "let '(%s) := %s in\n" % (", ".join(self.var(x.id) for x in target.elts), e) + self.block(rest, env2, k)
+                if x.id in self.opaque:
+                    raise Unsupported("assignment to the name of an opaque helper")
+            env2["%views"] = frozenset(set(env.get("%views", ())) - {x.id for x in target.elts})
+            return pre0 + "let '(%s) := %s in\n" % (", ".join(self.var(x.id) for x in target.elts), e) + self.block(rest, env2, k)
         if isinstance(target, ast.Subscript) and isinstance(target.value, ast.Name) and isinstance(target.slice, ast.Compare):
             # boolean-mask store X[mask] = E: positions where the mask holds receive the value of E computed elementwise
             arr = target.value.id
             if env.get(arr) != V:
                 raise Unsupported("mask store into non-vector")
+            if arr in env.get("%views", ()):
+                raise Unsupported("store into %s, which is bound to a slice (numpy view)" % arr)
             mask_src = ast.dump(target.slice)
             m, mt = self.vec_mask(target.slice, env)
 
@@ -670,11 +801,14 @@ class FnTranslator:
             e, t = self.expr(Strip().visit(ast.parse(ast.unparse(value), mode="eval").body), env)
             if t != V:
                 e = "(repeat %s (length %s))" % (self.coerce(e, t, F), self.var(arr))
+            self.no_pre()
             return "let %s := (vselect N %s %s %s) in\n" % (self.var(arr), m, e, self.var(arr)) + self.block(rest, env, k)
         if isinstance(target, ast.Subscript) and isinstance(target.value, ast.Name):
             arr = target.value.id
             if arr not in env:
                 raise Unsupported("store into unknown array")
+            if arr in env.get("%views", ()):
+                raise Unsupported("store into %s, which is bound to a slice (numpy view)" % arr)
             e, t = self.expr(value, env)
             at = env[arr]
             if isinstance(target.slice, ast.Tuple):
@@ -692,7 +826,8 @@ class FnTranslator:
                     new = "(iset %s %s %s)" % (self.var(arr), i, self.coerce(e, t, I) if t != F else self._nofloat())
                 else:
                     raise Unsupported("store into " + str(at))
-            return "let %s := %s in\n" % (self.var(arr), new) + self.block(rest, env, k)
+            pre, env = self.take_pre(env)
+            return pre + "let %s := %s in\n" % (self.var(arr), new) + self.block(rest, env, k)
         raise Unsupported("assignment target")
 
     def _nofloat(self):
@@ -747,7 +882,9 @@ class FnTranslator:
                 if name in used_names([st.test]):
                     return True
                 r = self._rbb(st.body, name)
-                if r is True or (r is False and name in used_names(later)):
+                # bound first inside the body: after the loop it may be unbound (zero iterations), so only a later READ
+                # before a certain rebinding is a problem
+                if r is True or (r is False and self._rbb(later, name) is True):
                     return True
             elif isinstance(st, ast.If):
                 if name in used_names([st.test]):
@@ -766,6 +903,7 @@ class FnTranslator:
 
     def ifstmt(self, s, rest, env, k):
         c, ct = self.expr(s.test, env)
+        pre, env = self.take_pre(env)
         if ct != B:
             raise Unsupported("non-bool condition")
         esc = (ast.Return, ast.Raise)
@@ -773,7 +911,7 @@ class FnTranslator:
             # some branch leaves the function: duplicate the continuation
             a = self.block(s.body + rest, env, k)
             b = self.block(s.orelse + rest, env, k)
-            return "(if %s then\n%s\nelse\n%s)" % (c, a, b)
+            return pre + "(if %s then\n%s\nelse\n%s)" % (c, a, b)
         # join point: variables assigned in either branch.  A name first bound in both branches is fine.
         an, bn = assigned_names(s.body), assigned_names(s.orelse)
         names = [n for n in an + [x for x in bn if x not in an]]
@@ -787,7 +925,11 @@ class FnTranslator:
                         raise Unsupported("variable %s not bound on a path" % n)
                     types.setdefault(n, []).append(e2[n])
                 return self.tup(outs)
-            return self.block(stmts, env, fin)
+            self.nest += 1
+            try:
+                return self.block(stmts, env, fin)
+            finally:
+                self.nest -= 1
 
         a = branch(s.body)
         b = branch(s.orelse)
@@ -803,8 +945,8 @@ class FnTranslator:
             # could still be rebound before use, but fail closed
             raise Unsupported("variable bound on one path only is used later: %s" % sorted(used_names(rest) & set(dead)))
         if not outs:
-            return self.block(rest, env2, k)
-        return "let %s := (if %s then\n%s\nelse\n%s) in\n" % (self.pat(outs), c, a, b) + self.block(rest, env2, k)
+            return pre + self.block(rest, env2, k)
+        return pre + "let %s := (if %s then\n%s\nelse\n%s) in\n" % (self.pat(outs), c, a, b) + self.block(rest, env2, k)
 
     def range_args(self, it, env):
         if not (isinstance(it, ast.Call) and dotted(it.func) in ("range", "numba.prange", "prange")) or it.keywords:
@@ -822,6 +964,7 @@ class FnTranslator:
         if contains(s.body, (ast.Return, ast.Raise)):
             raise Unsupported("return/raise inside a loop")
         lo, hi = self.range_args(s.iter, env)
+        pre, env = self.take_pre(env)
         iv = s.target.id
         state, local = self.state_vars(s.body, env)
         if iv in state or iv in local:
@@ -842,7 +985,7 @@ class FnTranslator:
 
             def fin(e2):
                 return self.tup(st_names)
-            body = self.loop_body(s.body, env_in, fin, live)
+            body = self.nested(lambda: self.loop_body(s.body, env_in, fin, live))
             body = "(if %s then\n%s\nelse %s)" % (live, body, self.tup(st_names))
             init = "(" + ", ".join(["true"] + [self.var(n) for n in state]) + ")" if state else "true"
         else:
@@ -851,13 +994,20 @@ class FnTranslator:
                     if e2.get(n) != env[n]:
                         raise Unsupported("loop changes the type of " + n)
                 return self.tup(st_names)
-            body = self.loop_body(s.body, env_in, fin, None)
+            body = self.nested(lambda: self.loop_body(s.body, env_in, fin, None))
             init = self.tup(state)
         if not st_names:
-            return self.block(rest, env, k)  # a loop without effect on named state
-        txt = "let %s := for_range %s %s (fun %s %s =>\n%s) %s in\n" % (
+            return pre + self.block(rest, env, k)  # a loop without effect on named state
+        txt = pre + "let %s := for_range %s %s (fun %s %s =>\n%s) %s in\n" % (
             self.pat(st_names), lo, hi, self.var(iv), self.pat(st_names), body, init)
         return txt + self.block(rest, env, k)
+
+    def nested(self, thunk):
+        self.nest += 1
+        try:
+            return thunk()
+        finally:
+            self.nest -= 1
 
     def _break_in(self, stmts):
         for st in stmts:
@@ -880,6 +1030,7 @@ class FnTranslator:
             return fin(env)
         if isinstance(s, ast.If) and (self._esc(s.body) or self._esc(s.orelse)):
             c, ct = self.expr(s.test, env)
+            self.no_pre()
             if ct != B:
                 raise Unsupported("non-bool condition")
             # names first bound in one branch must not leak: each path continues separately (duplication)
@@ -903,12 +1054,16 @@ class FnTranslator:
             raise Unsupported("while without a fuel expression")
         if s.orelse or contains(s.body, (ast.Return, ast.Raise, ast.Break, ast.Continue)):
             raise Unsupported("while with else/return/break/continue")
+        if self.nest:
+            raise Unsupported("while inside a loop / joining if (its ok flag would not reach the return)")
         fe, ft = self.expr(ast.parse(fuel, mode="eval").body, env)
+        self.no_pre()
         if ft != I:
             raise Unsupported("fuel must be an int expression")
         state, local = self.state_vars(s.body, env)
-        if set(local) & used_names(rest):
-            raise Unsupported("name bound inside a while is read after it")
+        for nm in local:
+            if self.read_before_bound(rest, nm):
+                raise Unsupported("name bound inside a while is read after it: " + nm)
         if not state:
             raise Unsupported("while without state")
 
@@ -918,15 +1073,16 @@ class FnTranslator:
                     raise Unsupported("loop changes the type of " + n)
             return self.tup(state)
         c, ct = self.expr(s.test, env)
+        self.no_pre()
         if ct != B:
             raise Unsupported("non-bool condition")
-        body = self.block(s.body, env, fin)
+        body = self.nested(lambda: self.block(s.body, env, fin))
         ok = "ok%d_" % self.fresh
         self.fresh += 1
         self.fuel_flags = getattr(self, "fuel_flags", []) + [ok]
         txt = "let '(%s, %s) := while_fuel (Z.to_nat %s) (fun %s => %s) (fun %s =>\n%s) %s in\n" % (
             self.tup(state) if len(state) > 1 else self.var(state[0]), ok, fe, self.pat(state), c, self.pat(state), body, self.tup(state))
-        return txt + self.block(rest, env, k)
+        return txt + self.block(rest, self.add_ok(env, ok), k)
 
     # ---------------------------------------------------------------- function
     def translate(self):
@@ -972,12 +1128,20 @@ class FnTranslator:
             if self.mutated and getattr(self, "ret_type", None) in (None, tuple(e2[m] for m in self.mutated) if len(self.mutated) > 1 else e2[self.mutated[0]]):
                 return self.ret_mutated(e2)
             raise Unsupported("function may end without return")
+        for h in self.opaque:
+            if h in env:
+                raise Unsupported("opaque helper name %s is also an argument" % h)
         body = self.block(fn.body, env, fall_off)
+        self.no_pre()
         rt = ("opt", self.ret_type) if self.has_raise else self.ret_type
-        head = "Definition src_%s (N : Num)%s %s : %s :=\n" % (
+        full = (rt, B) if self.has_fuel else rt
+        opq = [(h, self.opaque[h]) for h in self.opaque if h in self.opaque_used]
+        head = "Definition src_%s (N : Num)%s%s %s : %s :=\n" % (
             fn.name, " (E : PyExt N)" if self.uses_ext else "",
-            " ".join("(%s : %s)" % (self.var(n), coq_type(t)) for n, t in params), coq_type(rt))
-        return head + body + ".\n", {"args": params, "ret": rt, "ext": self.uses_ext, "mutates": self.mutated}
+            "".join(" (%s : %s)" % (self.var(h), " -> ".join(coq_type(t) for t in tys + [r])) for h, (tys, r) in opq),
+            " ".join("(%s : %s)" % (self.var(n), coq_type(t)) for n, t in params), coq_type(full))
+        return head + body + ".\n", {"args": params, "ret": rt, "ext": self.uses_ext, "mutates": self.mutated,
+                                      "fuel": self.has_fuel, "opaque": opq}
 
 
 COQ_RESERVED = {"at", "as", "in", "fun", "let", "match", "end", "with", "then", "else", "if", "return", "forall", "exists", "fix", "cofix",
@@ -1010,8 +1174,8 @@ def translate_module(path, wanted, sigs=None, consts=None, modname="Src"):
             report[name] = {"ok": False, "error": "function not found in " + path}
             continue
         fn = fns[name]
-        tr = FnTranslator(fn, sigs.get(name, {}), done, consts or {})
         try:
+            tr = FnTranslator(fn, sigs.get(name, {}), done, consts or {})
             text, info = tr.translate()
         except Unsupported as e:
             report[name] = {"ok": False, "error": "unsupported: %s (line %d)" % (e, fn.lineno)}
@@ -1023,7 +1187,8 @@ def translate_module(path, wanted, sigs=None, consts=None, modname="Src"):
         src = ast.unparse(fn)
         report[name] = {"ok": True, "sha": hashlib.sha256(text.encode()).hexdigest()[:12], "decorators": decorator_flags(fn),
                         "lines": (fn.lineno, fn.end_lineno), "ext": info["ext"], "ret": str(info["ret"]),
-                        "args": [(n, str(t)) for n, t in info["args"]], "fuel_flags": getattr(tr, "fuel_flags", [])}
+                        "args": [(n, str(t)) for n, t in info["args"]], "fuel_flags": getattr(tr, "fuel_flags", []),
+                        "fuel_bounded": info["fuel"], "opaque": [h for h, _ in info["opaque"]]}
         chunks.append("(* %s:%d-%d  %s *)\n%s" % (path.split("/")[-1], fn.lineno, fn.end_lineno, " ".join(decorator_flags(fn)), text))
     header = ("(* GENERATED by harness/vp/py2coq.py from %s -- do not edit *)\n"
               "From Coq Require Import List ZArith Bool.\nFrom UV Require Import Num PyPrim.\nImport ListNotations.\n\n" % path)
